@@ -17,6 +17,7 @@ import (
 	"os"
 	"os/exec"
 	"runtime"
+	"runtime/debug"
 	"sort"
 	"strings"
 	"sync"
@@ -200,7 +201,28 @@ func Expand(m Model, cache *stateCache, scn int, path []int, lo, hi int) *Result
 	}
 	for a := lo; a < hi && a < len(m.Actions(scn)); a++ {
 		c := &Ctx{Check: true, Scn: scn, Path: path, A: a, res: res, model: m}
-		nx := m.Step(scn, st, a, c)
+		var nx *State
+		func() {
+			defer func() {
+				if p := recover(); p != nil {
+					msg := fmt.Sprint(p)
+					if len(msg) > 120 {
+						msg = msg[:120]
+					}
+					key := msg
+					if len(key) > 40 {
+						key = key[:40]
+					}
+					stack := string(debug.Stack())
+					if len(stack) > 6000 {
+						stack = stack[:6000]
+					}
+					c.Violation("panic:"+key, "the code under test panicked: "+msg, map[string]interface{}{"stack": stack})
+					nx = nil
+				}
+			}()
+			nx = m.Step(scn, st, a, c)
+		}()
 		if nx == nil {
 			res.Cnt["actions_disabled"]++
 			continue
